@@ -19,7 +19,7 @@ from . import c09_eval as E
 from . import c09_gen as G
 
 MANIFEST = {
-    "text": "Coq theorems about an executable model of stix2.equivalence.pattern (66 theorems in Props/C09.v + 17 in Props/C09Src.v, all closed under the global "
+    "text": "Coq theorems about an executable model of stix2.equivalence.pattern (66 theorems in Props/C09.v + 21 in Props/C09Src.v, all closed under the global "
             "context): the comparators are lawful total preorders, hence the reported relation is reflexive, symmetric and "
             "transitive and find_equivalent_patterns is the filter of the pairwise test; every pass of the normaliser "
             "(flatten, order/dedupe, absorption with its deletion loop, DNF with root-type pruning, special values, settle) "
@@ -39,11 +39,13 @@ MANIFEST = {
             "text), the arguments _dupe_ast hands on (incl. negated), the deletion order of both absorption passes, whether "
             "__is_contained_and consumes the matched operand, the transformers in the simplify / normalise chains and the "
             "flag logic of ChainTransformer / SettleTransformer, the MATCHES and StringConstant guards, the arithmetic of "
-            "_mask_bytes (as Gallina functions), the bodies of equivalent_patterns / find_equivalent_patterns (every member "
+            "_mask_bytes (as Gallina functions), hex_cmp (on decoded bytes) / bin_cmp / bool_cmp / list_cmp (lexicographic on the "
+            "sorted members) / generic_cmp / iter_lex_cmp / iter_in, that both DNF transformers transform their new terms again, "
+            "the bodies of equivalent_patterns / find_equivalent_patterns (every member "
             "examined, no cache); Props/C09Src.v proves for each that the model's function is the one these choices denote "
             "(source_* theorems) and refutes the recognised alternatives; an unrecognised text aborts the translator naming "
             "the function; the special-value variant read from the text must equal the one shown by running the witnesses.  "
-            "Not read from the text: the bodies of the flatten / order / DNF transformers, _path_is, ipv4_addr / ipv6_addr "
+            "Not read from the text: the bodies of the flatten / order transformers and the rest of the DNF transformers, _path_is, ipv4_addr / ipv6_addr "
             "beyond their guards (correspondence run only).  "
             "Trusted: Coq kernel + vm_compute, the hand-written model (checked against the implementation on every run), "
             "the restated platform functions inet_aton/inet_pton/inet_ntoa/inet_ntop/int()/str.lower() (below U+0100), the "
@@ -467,7 +469,9 @@ def check(run):
         "and %d patterns at the boundary of the absorption containment tests (repeated operands, sub-sequences, "
         "swapped order); %d collections of near-duplicate members (one constant respelled: white space inside a string "
         "literal, case, escapes, 1 / 1.0 / +1, set order; with repeats, in three orders, two queries each) where "
-        "find_equivalent_patterns must equal the member-by-member equivalent_patterns filter; "
+        "find_equivalent_patterns must equal the member-by-member equivalent_patterns filter, no near-duplicate of a "
+        "normalising pattern may make the comparison raise, and near-duplicates reported equivalent go through the "
+        "independent evaluator (hex / binary constants with leading zero bytes and h'', sets that are sorted prefixes); "
         "every normal form is also written back as pattern text and compared with the original by "
         "the independent evaluator; a case is non-trivial when the pattern(s) parsed, normalised and contain a "
         "compound node" % (depth, nrule, nbound, nnear))
